@@ -493,8 +493,18 @@ func (s *Sess) RemoveURR(req *ie.IE) ([]report.USAReport, error) {
 	}
 
 	// indicates usage report being reported for a URR due to the removal of the URR
+	named := false
 	for i := range usars {
 		usars[i].USARTrigger.Flags |= report.USAR_TRIG_TERMR
+		if usars[i].URRID == id {
+			named = true
+		}
+	}
+	if !named {
+		// the entry is kept for the final reports of the URR only: without one it
+		// would stay for good, and later reports naming the removed URR would be
+		// passed on to the control plane
+		delete(s.URRIDs, id)
 	}
 	return usars, nil
 }
